@@ -1,6 +1,8 @@
 """Hash primitives from hashlib only (independent of the library's pure-Python ripemd160)."""
 import hashlib
 
+_new = hashlib.new      # captured at import: the runner's "hashlib without RIPEMD-160" simulation replaces hashlib.new afterwards
+
 
 def sha256(b):
     return hashlib.sha256(b).digest()
@@ -11,7 +13,7 @@ def dsha(b):
 
 
 def ripemd160(b):
-    return hashlib.new('ripemd160', b).digest()
+    return _new('ripemd160', b).digest()
 
 
 def h160(b):
